@@ -109,9 +109,50 @@ def addpath_sequences(ctx, I):
                 break
 
 
+def world_sequences(ctx, I):
+    """one explicit multi-candidate map/fork provenance OBJECT scored several times under DIFFERENT worlds (candidate per unit) - by one importance object and by a
+    second one sharing the provenance object; every result is compared with what a fresh provenance object + fresh importance object give for that world"""
+    from sklearn.neighbors import KNeighborsClassifier
+    rng = ctx.rng
+    U = I["utility"]
+    for seq in range(3 if ctx.tier == "quick" else 10):
+        mc = dsm.rand_multicand(rng, n_units=rng.randint(2, 4), n_cands=3, explicit_world=True)
+        n = mc["n_rows"]
+        nprng = np.random.RandomState(rng.randrange(2 ** 31))
+        X = np.round(nprng.randn(n, 2), 3)
+        y = np.array([i % 2 for i in range(n)])
+        nprng.shuffle(y)
+        m = rng.randint(2, 4)
+        Xv = np.round(nprng.randn(m, 2), 3)
+        yv = np.array([k % 2 for k in range(m)])
+        shared_prov = dsm.multicand_prov(I, mc)[0]
+        worlds = [[rng.randint(1, 2) for _ in range(mc["n_units"])] for _ in range(rng.randint(3, 4))]
+        worlds[0] = [1] * mc["n_units"]
+        if all(w == worlds[0] for w in worlds):
+            worlds[-1] = [2] * mc["n_units"]
+
+        def obj():
+            return I["imp"].ShapleyImportance(method="neighbor", utility=U.SklearnModelAccuracy(KNeighborsClassifier(1)), nn_k=1)
+        a, b = obj().fit(X, y, provenance=shared_prov), obj().fit(X, y, provenance=shared_prov)
+        case = dict(part="world-sequence", lits=mc["lits"], nUnits=mc["n_units"], X=X.tolist(), y=y.tolist(), Xv=Xv.tolist(), yv=yv.tolist(), worlds=worlds)
+        ctx.case(case, nontrivial=True, sample=case, part="world-sequence")
+        try:
+            for k, w in enumerate(worlds):
+                who = a if k % 2 == 0 else b
+                got = list(np.asarray(who.score(Xv, yv, world=np.array(w, dtype=int)), dtype=float))
+                ref = list(np.asarray(obj().fit(X, y, provenance=dsm.multicand_prov(I, mc)[0]).score(Xv, yv, world=np.array(w, dtype=int)), dtype=float))
+                if got != ref:
+                    ctx.mismatch("a 'neighbor' score under world %r depends on the worlds scored before on the same provenance object (call %d of the sequence; fresh objects "
+                                 "give another vector)" % (w, k), case, impl=got, spec=ref)
+                    break
+        except Exception as e:  # noqa
+            ctx.mismatch("score() raised in a sequence of scorings under different worlds", case, impl=exc_name(e) + ": " + repr(e))
+
+
 def run(ctx):
     I = load_impl(ctx)
     addpath_sequences(ctx, I)
+    world_sequences(ctx, I)
     import pandas as pd
     from sklearn.neighbors import KNeighborsClassifier
     U = I["utility"]
